@@ -93,7 +93,7 @@ def failing_calls(c):
     import os
     from . import tv
     out = os.path.join(c.scratch, "pull-errors.ndjson")
-    c.vh(["crash-errors", out, 1 if c.tier == "quick" else 60], timeout=3200)
+    c.vh(["crash-errors", out, 1 if c.tier == "quick" else 8], timeout=3200)
     lines = [l.rstrip("\n") for l in open(out)]
     recs = [json.loads(l) for l in lines]
     if len(recs) < 300 or len({r["errkind"] for r in recs}) < 12:
